@@ -9,6 +9,7 @@ from __future__ import annotations
 
 import asyncio
 import datetime as _dt
+import os
 import selectors
 import types
 
@@ -23,9 +24,27 @@ class _VSelector(selectors.SelectSelector):
 
     def select(self, timeout=None):
         ev = super().select(0)
+        loop = self._ref[0]
+        sig = loop.signal_at
+        if not ev and sig is not None and (timeout is None or loop._vnow <= sig[0] <= loop._vnow + timeout):
+            # a signal arrives while the loop is blocked in select(): its handler runs here; only
+            # something written to the loop's self-pipe (call_soon_threadsafe) ends the wait early
+            start = loop._vnow
+            loop._vnow = max(loop._vnow, sig[0])
+            loop.signal_at = None
+            import signal as _signal
+            if not callable(_signal.getsignal(sig[1])):
+                return ev               # (nobody handles that signal any more: not sent)
+            if loop.on_signal is not None:
+                loop.on_signal()
+            os.kill(os.getpid(), sig[1])
+            ev = super().select(0)
+            if ev or timeout is None:
+                return ev
+            loop._vnow = start + timeout        # nobody woke the loop: it sleeps on
+            return ev
         if ev or timeout is None or timeout <= 0:
             return ev
-        loop = self._ref[0]
         loop._vnow += timeout
         if loop.latency_fn is not None:
             loop._vnow += loop.latency_fn()
@@ -40,6 +59,8 @@ class VLoop(asyncio.SelectorEventLoop):
         super().__init__(_VSelector(ref))
         ref[0] = self
         self._vnow = LOOP0
+        self.signal_at = None       # optional: (virtual time, signal number) delivered during select()
+        self.on_signal = None       # optional: called just before that signal is sent
         self.latency_fn = None      # optional: extra lateness of a timer wake-up
         self.timer_log = None       # optional list receiving (op, handle-id, when, now)
 
